@@ -18,6 +18,20 @@ def draw(rng, cfg) -> dict:
         return {"raw": bytes(rng.choice(SMALL_ALPHABET) for _ in range(n)).hex(), "class": "small_alphabet"}
     if r < 0.2:
         return {"raw": hdlc_gen.rand_bytes(rng, rng.randint(1, 400), rng.choice([0.0, 0.1, 0.4])).hex(), "class": "pure_noise"}
+    if r < 0.215:
+        # a backlog: hundreds of short frames (a few of them damaged) that a stalled consumer receives in very few calls
+        items = [{"t": "flags", "n": 1}]
+        fired = {"long_run_of_short_frames": 1}
+        for seq in range(rng.randint(300, 1500)):
+            fr = hdlc_gen.frame_fields(rng, seq, small=True)
+            fr["info"] = fr["info"][: 2 * rng.choice([0, 0, 1, 2, 4, 6])]
+            if rng.random() < 0.03:
+                kind = rng.choice(hdlc_gen.FRAME_FAULTS)
+                fr = hdlc_gen.corrupt_frame(rng, fr, kind)
+                fired[kind] = fired.get(kind, 0) + 1
+            items.append(fr)
+            items.append({"t": "flags", "n": 1})
+        return {"items": items, "faults": [], "class": "long_run_of_short_frames", "gen_faults": fired}
     items = [{"t": "flags", "n": rng.choice([0, 1, 1, 2])}] if rng.random() < 0.8 else []
     fired = {}
     for seq in range(rng.choice([1, 1, 2, 3, 5, 8])):
